@@ -140,13 +140,14 @@ def check(pid, tier):
                 cases.append(lines); ncorpus += 1
     gen_stats = {}
     gen_errors = {}
+    gname = lambda g: "%s.%s" % (getattr(g, "__module__", "?").split(".")[-1], g.__name__)
     for g in P.gens:
         try:
             cs = g(rng, tier)
         except Exception as ex:      # a broken generator must not take the whole check down
-            gen_errors[g.__name__] = repr(ex)[:300]
+            gen_errors[gname(g)] = repr(ex)[:300]
             cs = []
-        gen_stats[g.__name__] = len(cs)
+        gen_stats[gname(g)] = gen_stats.get(gname(g), 0) + len(cs)
         cases += cs
     model_bin = os.path.join(build.LEAN, ".lake", "build", "bin", "model")
     impl_bin = os.path.join(bindir, "impl")
@@ -197,6 +198,33 @@ def check(pid, tier):
     cov["distinct_nontrivial"] = len(distinct)
     cov["samples"] = samples
     cov["known_findings_printed"] = known_printed
+
+    # optimized build (thorough tier of the properties that quantify over both build profiles): the
+    # same operation lines through a --release harness; any difference from the checked build's
+    # answers (a value, an error kind, a panic that only one profile has) is reported
+    if tier == "thorough" and getattr(P, "release_check", False):
+        okr, logr, bindir_r = build.cargo_build(release=True)
+        rel = {"built": okr}
+        if okr:
+            rel_ans = run.run_cases([os.path.join(bindir_r, "impl")], cases, op_timeout=30, jobs=12)
+            ndiff = 0
+            for ci, case in enumerate(cases):
+                for oi, op in enumerate(case):
+                    if op.startswith("img "):
+                        continue
+                    a, b = impl_ans[ci][oi] or "none", rel_ans[ci][oi] or "none"
+                    if P.project(op, a) != P.project(op, b):
+                        kf = next((k for k in known if k["re"].search("%s => %s ## " % (op, a)) or k["re"].search("%s => %s ## " % (op, b))), None)
+                        if kf:
+                            if kf["text"] not in known_printed:
+                                known_printed.append(kf["text"])
+                            continue
+                        ndiff += 1
+                        if ndiff <= 3:
+                            disagreements.append((ci, oi, {"kind": "spec", "text": "checked and optimized builds answer differently: debug=%s release=%s" % (a[:200], b[:200])}))
+            rel["compared"] = nops
+            rel["differences"] = ndiff
+        cov["release_profile"] = rel
 
     # batch oracles that do not fit the one-line-per-operation protocol (e.g. C17: a generated crate
     # with pattern!() invocations compiled against /repo)
